@@ -88,6 +88,9 @@ type open struct {
 	t0       time.Time
 	resolved []vlib.ResolvedIntent
 	callsAt  int // device calls right after the apply
+	// noCount: a Set issued inside the uncertainty window may have obtained the slot after the expiry and talked to the
+	// device before failing; the rollback of this transaction can then no longer be counted
+	noCount bool
 }
 
 type run struct {
@@ -124,7 +127,7 @@ func (r *run) settle(force bool) *vlib.Failure {
 	if isOpen {
 		return vlib.Failf("C06:still-open-after-timeout", "transaction %s (timeout %v) was left alone; %v after it was applied the slot still holds %q", r.cur.id, shortT, time.Since(r.cur.t0).Round(time.Millisecond), id)
 	}
-	if got := r.h.Dev.Calls() - r.cur.callsAt; got != 1 {
+	if got := r.h.Dev.Calls() - r.cur.callsAt; got != 1 && !(r.cur.noCount && got >= 1) {
 		return vlib.Failf("C06:rollback-count-after-timeout", "transaction %s timed out: the device saw %d calls after the apply, expected exactly one rollback", r.cur.id, got)
 	}
 	r.stale = append(r.stale, r.cur.id)
@@ -324,6 +327,9 @@ func Exec(c *Case) (nontrivial bool, labels []string, fail *vlib.Failure) {
 						if f := r.adoptAfterUncertain(id, op, res); f != nil {
 							return ret(f)
 						}
+					} else if r.cur != nil && h.Dev.Calls() != calls {
+						r.cur.noCount = true
+						r.lab["rollback-count-not-judged"] = true
 					}
 					continue
 				}
